@@ -53,7 +53,7 @@ def san_summary(err):
 def crash_site(err):
     """first library frame of a sanitizer report, as a stable name"""
     for f in re.findall(r"#\d+ 0x[0-9a-f]+ in ([^\n]*)", err):
-        if "/src/" in f or "/include/manifold/" in f:
+        if (vp.REPO.rstrip("/") + "/src/") in f or (vp.REPO.rstrip("/") + "/include/manifold/") in f:
             g = f
             for _ in range(6):
                 g = re.sub(r"<[^<>]*>", "", g)
